@@ -558,6 +558,9 @@ def ins_lattice(seed, quick, resume_subsets=True):
         assigns.append({"model": "G2tilt"})
         assigns.append({"model": "G2tilt", "draw_iid_live": False, "reparameterisation": None})
         assigns.append({"min_remove": 5})
+        # min_samples larger than the number of samples with a finite likelihood (zero-likelihood region)
+        assigns.append({"model": "G2hole", "min_samples": 45, "draw_iid_live": False})
+        assigns.append({"model": "G2hole", "min_samples": 45})
         # runs that stop because the criteria are met (not at the iteration cap), also resumed at every checkpoint
         assigns.append({"stopping_criterion": "log_dZ", "tolerance": 5.0, "max_iteration": 8})
         assigns.append({"stopping_criterion": ["ratio", "ess"], "tolerance": [0.5, 1000.0], "check_criteria": "any", "max_iteration": 8})
